@@ -184,7 +184,50 @@ def flanksDensity (bloblen : Int) (targetAAs : Int) (len : Int) : Except Unit (I
     let flank_end : Int := flank
     .ok (flank_start, flank_end, nblobs)
 
+/-- translated from localcider/backend/sequence.py:Sequence.Omega (loop at line 457) -/
+def omegaCharSrc (res : Char) : Except Unit Char :=
+  if ((res = 'P') ∨ (res = 'E') ∨ (res = 'D') ∨ (res = 'K') ∨ (res = 'R')) then
+    .ok 'E'
+  else
+    .ok 'K'
+
+/-- accumulator's initial value | how the function's last statement uses the recoded string -/
+def omegaCharSrcFrame : String := "''|Sequence(newseq).kappa()"
+
+/-- translated from localcider/backend/sequence.py:Sequence.Omega_seq (loop at line 481) -/
+def omegaSeqCharSrc (res : Char) : Except Unit Char :=
+  if ((res = 'P') ∨ (res = 'E') ∨ (res = 'D') ∨ (res = 'K') ∨ (res = 'R')) then
+    .ok 'X'
+  else
+    .ok 'O'
+
+/-- accumulator's initial value | how the function's last statement uses the recoded string -/
+def omegaSeqCharSrcFrame : String := "''|newseq"
+
+/-- translated from localcider/backend/sequence.py:Sequence.kappa_X (loop at line 518) -/
+def kappaX2CharSrc (in_grp1 : Bool) (in_grp2 : Bool) : Except Unit Char :=
+  if (in_grp1 = true) then
+    .ok 'E'
+  else
+    if (in_grp2 = true) then
+      .ok 'K'
+    else
+      .ok 'G'
+
+/-- accumulator's initial value | how the function's last statement uses the recoded string -/
+def kappaX2CharSrcFrame : String := "''|Sequence(newseq).kappa()"
+
+/-- translated from localcider/backend/sequence.py:Sequence.kappa_X (loop at line 530) -/
+def kappaX1CharSrc (in_grp1 : Bool) : Except Unit Char :=
+  if (in_grp1 = true) then
+    .ok 'E'
+  else
+    .ok 'K'
+
+/-- accumulator's initial value | how the function's last statement uses the recoded string -/
+def kappaX1CharSrcFrame : String := "''|Sequence(newseq).kappa()"
+
 /-- which decision functions could be translated on this run -/
-def translatedDecisions : List String := ["phasePlotRegion", "kappaDecision", "sigmaDecision", "checkWindow", "verifyPH", "insideRelevant", "fplusSrc", "fminusSrc", "fcrSrc", "ncprSrc", "ferSrc", "mncSrc", "deltaSrc", "deltaTermSrc", "flanksNCPR", "flanksFCR", "flanksSigma", "flanksHydro", "flanksHydro2", "flanksDensity"]
+def translatedDecisions : List String := ["phasePlotRegion", "kappaDecision", "sigmaDecision", "checkWindow", "verifyPH", "insideRelevant", "fplusSrc", "fminusSrc", "fcrSrc", "ncprSrc", "ferSrc", "mncSrc", "deltaSrc", "deltaTermSrc", "flanksNCPR", "flanksFCR", "flanksSigma", "flanksHydro", "flanksHydro2", "flanksDensity", "omegaCharSrc", "omegaSeqCharSrc", "kappaX2CharSrc", "kappaX1CharSrc"]
 
 end Cider.Gen
